@@ -4,7 +4,7 @@
 m=$1; shift
 cd /repo && git status --short | grep -q . && { echo "/repo not clean"; exit 2; }
 git -C /repo apply $m/patch.diff || { echo "patch does not apply"; exit 2; }
-trap 'git -C /repo checkout -- . ' EXIT
+trap 'git -C /repo checkout -- . ; git -C /repo clean -fdq -- crates rust src' EXIT
 cd /verif
 for p in "$@"; do
   out=$(./check $p --tier quick 2>&1 | grep -E "^(VIOLATION|OK|KNOWN)" | head -5)
